@@ -226,7 +226,7 @@ fn run_tape_sub(prop: &str, sub: &SubCheck, seed: u64, cases: u64, len: usize, f
                     let wseed = mix(mix(seed, hash_str(prop) ^ hash_str(name)), w as u64);
                     let cfg = Config {
                         cases: per as u32,
-                        max_shrink_iters: u32::MAX,
+                        max_shrink_iters: u32::MAX - 1, // u32::MAX is proptest's sentinel for "4 x cases"; the budget is the counter below
                         failure_persistence: None,
                         rng_algorithm: RngAlgorithm::ChaCha,
                         rng_seed: RngSeed::Fixed(wseed),
